@@ -101,7 +101,11 @@ COMMON_ASSUME = [
 PROPS = {
     "C17": {
         "thm_module": "AkdModel.Thm.C17",
-        "theorems": [],
+        "theorems": ["Akd.C17." + t for t in [
+            "isPrefixOf_iff", "getPrefix_spec", "getPrefix_ge", "bits_getPrefix", "lcp_spec", "lcp_empty",
+            "prefixOrdering_spec", "cmp_spec", "bits_ofBits", "ofBits_normalised", "ofBits_bits",
+            "partition_sorted_eq_linear", "setLcp_sorted_eq_linear", "setLcp_counterexample",
+            "containsPrefix_sorted_eq_linear", "sortByLabel_sorted"]],
         "streams": ["c17"],
         "rule": "exhaustive pairs of short labels (at bit offset 0 and behind shared prefixes crossing byte "
                 "boundaries), every length 0..256 with adversarial patterns and garbage beyond the length, "
@@ -112,8 +116,10 @@ PROPS = {
     },
     "C08": {
         "thm_module": "AkdModel.Thm.C08",
-        "theorems": ["Akd.C08.lookup_below_history", "Akd.C08.lookup_history_gap_witness",
-                     "Akd.C08.lookup_history_gap_witness_33"],
+        "theorems": ["Akd.C08.history_history_agree", "Akd.C08.markers_no_panic", "Akd.C08.past_lt_start",
+                     "Akd.C08.future_bounds", "Akd.C08.succ_mem_future", "Akd.C08.lookup_below_history",
+                     "Akd.C08.lookup_succ_history", "Akd.C08.lookup_history_conflict_iff",
+                     "Akd.C08.lookup_history_gap_witness", "Akd.C08.lookup_history_gap_witness_33"],
         "streams": ["c08.markers"],
         "post": post_c08,
         "rule": "get_marker_versions real vs model: exhaustive for s<=n<=E<=bound, random u64 triples with "
